@@ -1034,6 +1034,10 @@ bool ConnRef::generatePath(void)
     freeRoutes();
     PolyLine& output_route = m_route;
     output_route.ps = clippedPath;
+    // Cache the length of the new route.  It is compared against a lower
+    // bound when deciding whether a removed or moved obstacle may have
+    // opened up a shorter path for this connector.
+    calcRouteDist();
  
 #ifdef PATHDEBUG
     db_printf("Output route:\n");
